@@ -70,8 +70,18 @@ CHECKS['C16'] = dict(
    note='partial: determinism across processes / hash seeds and through the file-based wrapper is established by execution only (a pure model cannot exhibit CPython hashing); edge order and multiplicity are not compared with the model',
    technique='Lean 4 proof of the model-side halves + differential execution across processes and hash seeds',
    design='C16')
+CHECKS['C10'] = dict(
+   text='Theorems (Props/C10.lean): for every consistent graph with distinct full names, loading the saved document through the JSON layer (id keys become strings) or the YAML layer (every mapping sorted by key), with or without a model, succeeds and gives the same nodes (id, name, type, ttc, defense, existence, viability, necessity, mitre, tags as list, extras), the same edge sets, the same attackers with entry points and reached steps, and a consistent graph again (ag_roundtrip_json / _yaml); nodes are bound to the asset name iff the model is given; attacker keys are always distinct; duplicate edges provably collapse (why edges are compared as sets) and distinct names are provably necessary. Tied to _to_dict / _from_dict / save_to_file / load_from_file by histories with save/load steps through real files.',
+   note='file layers enter as assumed functions jsonRT / yamlRT validated through real files; edge multiplicity is not preserved by the format',
+   technique='Lean 4 proof (document round trip; permutation lemmas for the sorted YAML layer) + differential correspondence through real files',
+   design='C10')
+CHECKS['C14'] = dict(
+   text='Partial (object identity is runtime). Theorems (Props/C14.lean) on the store model: the copy has the same observation, serialisation, counters and lookups (copy_equal, copy_serialized, copy_lookup), lives entirely on fresh references disjoint from the original (copy_fresh, copy_disjoint), is closed and consistent (copy_closed, copy_consistent), the original is untouched; every operation writes only objects of its own graph or fresh ones, so arbitrary interleavings of operations on original and copy stay invisible to the other side (independent_interleaved_partial; the extra hypothesis — label writes address nodes of the graph — is shown necessary by a proved counterexample). Tied to the three __deepcopy__ methods by histories with a deep copy, mutations on both sides, and an id()-based sharing check over nodes, attackers and every mutable per-node container.',
+   note='partial: CPython object identity is observed (id()), not proved; sharing of model / language is checked at run time only',
+   technique='Lean 4 proof (fresh-reference / frame argument over a shared store) + differential correspondence with sharing-pattern check',
+   design='C14')
 NOT_YET = {}
-PENDING = {'C15', 'C10', 'C14', 'C04', 'C17'}   # harness exists, theorems in progress: not claimed until they check
+PENDING = {'C15', 'C04', 'C17'}   # harness exists, theorems in progress: not claimed until they check
 
 def main():
     for k in PENDING: CHECKS.pop(k, None)
